@@ -116,7 +116,17 @@ theorem block_succ (ih : StmtIH fuel) (cb : List Stmt → Bool → Bool) (ctx : 
   · exact Post.err
   · exact Post.pure' hss
 
-theorem skipNewlines_any (fuel : Nat) : Post (skipNewlines fuel) (fun _ => True) := fun _ _ _ _ => trivial
+theorem skipNewlines_any : ∀ fuel, Post (skipNewlines fuel) (fun _ => True) := by
+  intro fuel
+  induction fuel with
+  | zero => unfold skipNewlines; exact Post.div
+  | succ fuel ih =>
+    unfold skipNewlines
+    pm_bind; intro t
+    pm_if
+    · pm_bind; intro _
+      exact ih
+    · exact Post.pure' trivial
 
 theorem functionDefinition_succ (ih : StmtIH fuel) (ctx : Ctx) (hc : CtxOK ctx) :
     Post (evalFunctionDefinition (fuel + 1) ctx) stmtP := by
@@ -230,7 +240,8 @@ theorem switch_succ (ih : StmtIH fuel) (E : ∀ fuel, ExprIH fuel) (ctx : Ctx) (
   pm_bind; intro n
   pm_if
   · exact Post.err
-  pm_bind; intro _
+  refine Post.bind' (skipNewlines_any fuel) ?_
+  intro _ _
   refine ih.cases _ _ _ _ _ hc ⟨htag, by simp_all, by simp_all, by simp_all⟩ (by simp) rfl (by simp)
 
 theorem cases_succ (ih : StmtIH fuel) (E : ∀ fuel, ExprIH fuel) (ctx : Ctx) (tag : Expr) (first : Option (Expr × List Stmt))
@@ -432,7 +443,7 @@ theorem statement_succ (ih : StmtIH fuel) (E : ∀ fuel, ExprIH fuel) (ctx : Ctx
   unfold evalStatement
   pm_bind; intro t
   pm_if
-  · exact varDefinition_post E fuel ctx hc
+  · exact (varDefinition_post E fuel ctx hc).mono (fun _ h => h.1)
   pm_if
   · exact ih.functionDefinition ctx hc
   pm_if
@@ -464,10 +475,10 @@ theorem statement_succ (ih : StmtIH fuel) (E : ∀ fuel, ExprIH fuel) (ctx : Ctx
   pm_if
   · refine Post.bind' ((E fuel).builtin ctx _ _ _ hc) ?_
     intro args ha
-    exact Post.pure' ha
+    exact Post.pure' ha.1
   pm_if
   · refine Post.bind' ((E fuel).builtin ctx _ _ _ hc) ?_
-    intro args ha
+    rintro args ⟨ha, hmin, hmax⟩
     split
     · pm_if
       · exact Post.err
@@ -485,27 +496,37 @@ theorem statement_succ (ih : StmtIH fuel) (E : ∀ fuel, ExprIH fuel) (ctx : Ctx
       · refine Post.pure' ?_
         obtain ⟨h1, h2, h3⟩ := args3 ha
         simp_all [stmtP, PT.stmt, PT.appendFlag, exprP]
-    · exact Post.pan
+    · rename_i hno2 hno3
+      refine Post.unreachable ?_
+      have h3 := hmax 3 rfl
+      match args, hmin, h3 with
+      | [p, d], _, _ => exact hno2 p d rfl
+      | [p, d, a], _, _ => exact hno3 p d a rfl
+      | [], h, _ => simp at h
+      | [_], h, _ => simp at h
+      | _ :: _ :: _ :: _ :: _, _, h => simp at h
   pm_if
   · refine Post.bind' ((E fuel).builtin ctx _ _ _ hc) ?_
-    intro args ha
+    rintro args ⟨ha, hmin, hmax⟩
     split
     · refine Post.pure' ?_
       simp_all [stmtP, PT.stmt, argsP, PT.args_]
-    · exact Post.pan
+    · rename_i hno
+      obtain ⟨p, rfl⟩ := len1 hmin hmax
+      exact Post.unreachable (hno p rfl)
   pm_bind; intro short
   pm_if
-  · exact varDefinition_post E fuel ctx hc
+  · exact (varDefinition_post E fuel ctx hc).mono (fun _ h => h.1)
   pm_bind; intro s
   pm_bind; intro t1
   pm_if
-  · exact incDec_post ctx hc
+  · exact (incDec_post ctx hc).mono (fun _ h => h.1)
   pm_if
-  · exact compound_post E fuel ctx hc
+  · exact (compound_post E fuel ctx hc).mono (fun _ h => h.1)
   pm_if
-  · exact varAssignment_post E fuel ctx hc
+  · exact (varAssignment_post E fuel ctx hc).mono (fun _ h => h.1)
   pm_if
-  · exact sliceAssignment_post E fuel ctx hc
+  · exact (sliceAssignment_post E fuel ctx hc).mono (fun _ h => h.1)
   refine Post.bind' ((E fuel).expression ctx hc) ?_
   intro e he
   split <;> first
